@@ -72,7 +72,7 @@ theorem solid_closed (e : Env) (wf : WF e) : Closed e (Solid e) where
         rw [reserve_usage, heq.1, heq.2]; exact h.marked r' j hm
       · exact h.marked r' j hm
   release := by
-    intro σ r i t a _ _ _ h
+    intro σ r i t a _ _ _ _ h
     refine ⟨?_, ?_⟩
     · intro r' i'
       show ((σ.led.set r i ((σ.led.get r i).release t a)).get r' i').usage = [] → _
@@ -95,7 +95,7 @@ theorem solid_closed (e : Env) (wf : WF e) : Closed e (Solid e) where
         exact h.marked r' j hm hn
       · exact h.marked r' j hm
   book := by
-    intro σ r i t _ _ hi0 _ _ h
+    intro σ r i t _ _ _ hi0 _ _ h
     have hnorm : e.norm i = i := by unfold Env.norm; simp [Int.not_lt.mpr hi0]
     refine ⟨?_, ?_⟩
     · intro r' i'
@@ -139,7 +139,7 @@ theorem has_closed (e : Env) (r : Nat) (i : Int) : Closed e (Has r i) where
     · rename_i heq; rw [reserve_usage, heq.1, heq.2]; exact h
     · exact h
   release := by
-    intro σ r' i' t a _ _ _ h
+    intro σ r' i' t a _ _ _ _ h
     unfold Has at *
     show ((σ.led.set r' i' ((σ.led.get r' i').release t a)).get r i).usage ≠ []
     simp only [Ledger.get_set]
@@ -151,7 +151,7 @@ theorem has_closed (e : Env) (r : Nat) (i : Int) : Closed e (Has r i) where
       exact h hn
     · exact h
   book := by
-    intro σ r' i' t _ _ _ _ _ h
+    intro σ r' i' t _ _ _ _ _ _ h
     unfold Has at *
     rw [bookSlot_eq, incAll_led]
     simp only [Ledger.get_set]
